@@ -468,6 +468,13 @@ func c29CheckCall(r *explore.Result, what string, cfg []string, workingOpts []st
 			if !conn.ConnectionState().HandshakeComplete {
 				r.Violate("C29|returned-conn-not-complete", "%s: returned connection has not completed the handshake", what)
 			}
+			// the connection that is returned is a usable one (only meaningful outside the scheduler:
+			// there the transport write is a scheduling point of its own scenario)
+			if sched.Current() == nil {
+				if _, werr := conn.Write([]byte("ping")); werr != nil {
+					r.Violate("C29|returned-conn-unusable", "%s: a Write on the connection Dial returned fails: %v (attempts %v)", what, werr, order)
+				}
+			}
 			succeeded = att[stop].id
 		}
 	case failAt > 0 && failAt <= expectLen:
@@ -1080,7 +1087,7 @@ func init() {
 		Init:          func(verifDir string) { c29Trust(verifDir) },
 		RaceScenarios: func(thorough bool) []*explore.Scenario { return []*explore.Scenario{c29Concurrent(0, true)} },
 		Run: func(c *explore.Check, thorough bool) {
-			c.Rule = "real Roller; net.DialTimeout redirected to in-memory connections to a standard-library TLS server that recognises each fingerprint and accepts a chosen subset. (1) explicit-state: the Roller's only state is WorkingHelloID, so every state {none, each configured id, an id no longer configured} — reached through the public API by a prefix Dial, or (each configured id) set by the caller as a pointer into its own list — x id lists {3 ids two of which share the client name, 4 ids incl. a seeded randomized one, 3 ids two of which are randomized ids differing only in their seed} x every acceptance subset x every attempt order the shuffle can produce (quick: 6 of 24 for the 4-id list) x dial failure at every position is executed, followed by one more Dial from the reached state; unseeded randomized ids (3 kinds x 6 shuffle seeds x 3 second servers): after one of their fresh fingerprints worked, WorkingHelloID carries its seed and the next Dial leads with exactly that fingerprint; a list holding a pinned and the unseeded id of one client (12 shuffle seeds): both stay separate entries, each tried once; one fingerprint stalled (its server reads the ClientHello and then stays silent; deadlines and a virtual clock are modelled in the in-memory transport: the attempt ends at its deadline) x each id of each list x every acceptance subset x 4 shuffle seeds: the other ids are still tried, each with its own handshake timeout; (2) two concurrent Dials on one Roller under the controlled scheduler, all schedules with <= 1 (2) preemptions/free switches, x 4 acceptance sets x {no working id, one}. Oracle (reference Roller): first attempt is the working id if any, no id twice, only configured ids (plus the working one), stops at the first accepted attempt and returns that connection (complete, same id, SNI = server name on every attempt), records it; a dial error is returned at once; failure leaves WorkingHelloID alone and tries every id; Roller.HelloIDs is never changed; concurrent: no deadlock/panic, each call explainable by the initial or the other call's working id, final WorkingHelloID is one of the successes. distinct = outcome class"
+			c.Rule = "real Roller; net.DialTimeout redirected to in-memory connections to a standard-library TLS server that recognises each fingerprint and accepts a chosen subset. (1) explicit-state: the Roller's only state is WorkingHelloID, so every state {none, each configured id, an id no longer configured} — reached through the public API by a prefix Dial, or (each configured id) set by the caller as a pointer into its own list — x id lists {3 ids two of which share the client name, 4 ids incl. a seeded randomized one, 3 ids two of which are randomized ids differing only in their seed} x every acceptance subset x every attempt order the shuffle can produce (quick: 6 of 24 for the 4-id list) x dial failure at every position is executed, followed by one more Dial from the reached state; unseeded randomized ids (3 kinds x 6 shuffle seeds x 3 second servers): after one of their fresh fingerprints worked, WorkingHelloID carries its seed and the next Dial leads with exactly that fingerprint; a list holding a pinned and the unseeded id of one client (12 shuffle seeds): both stay separate entries, each tried once; one fingerprint stalled (its server reads the ClientHello and then stays silent; deadlines and a virtual clock are modelled in the in-memory transport: the attempt ends at its deadline) x each id of each list x every acceptance subset x 4 shuffle seeds: the other ids are still tried, each with its own handshake timeout; (2) two concurrent Dials on one Roller under the controlled scheduler, all schedules with <= 1 (2) preemptions/free switches, x 4 acceptance sets x {no working id, one}. Oracle (reference Roller): first attempt is the working id if any, no id twice, only configured ids (plus the working one), stops at the first accepted attempt and returns that connection (complete, same id, a Write on it succeeds, SNI = server name on every attempt), records it; a dial error is returned at once; failure leaves WorkingHelloID alone and tries every id; Roller.HelloIDs is never changed; concurrent: no deadlock/panic, each call explainable by the initial or the other call's working id, final WorkingHelloID is one of the successes. distinct = outcome class"
 			c.Assumptions = []string{"shuffle decisions are driven by replacing the Roller's private prng with seeded ones (in-package helper); one seed per reachable attempt order", "fingerprints are recognised from the server's ClientHelloInfo (suites, extension set, groups, versions, ALPN; GREASE ignored); the menu's signatures are checked to be pairwise distinct", "trust via SSL_CERT_FILE and the real clock (certificate valid 2021-2036)"}
 			runAll(c, c29Scenarios(thorough), 0)
 			attachRacePass(c)
